@@ -27,7 +27,11 @@ THEOREMS = [
     'IblVerif.C18.fft_eq_zmod_dft',
     'IblVerif.C18.dft2_grid_separable',
 ]
-RULE = ('contents: float64, float32, int16, int32, int64 (and complex128/complex64 where the function takes spectra) for every helper; '
+RULE = ('input forms drawn independently of the values for every helper call: arrays as-is / Fortran order / strided view along any axis / read-only / '
+        'negative stride; call spelled naturally / all keywords with gpu=False / all positional in the pinned signature order; ns, nk, nl, axis as Python int / '
+        'np.int64 / narrow numpy int / unsigned; si as float / np.float64 / float32 when exact / int when integral; corners as list / tuple / ndarray; '
+        'convolve: dtypes of signal and kernel drawn independently (25 pairs, narrow-int extremes -32768 / 32767 ...); '
+        'contents: float64, float32, int16, int32, int64 (and complex128/complex64 where the function takes spectra) for every helper; '
         '(a) ns_optim_fft: every n in an initial segment, every table entry 2^a3^b (a<25, b<15) -1/+0/+1, powers of 2 and 3 '
         'around the table limits, seeded log-uniform n up to past the last entry (IndexError); '
         '(b) convolve: all pairs (nsx, nsw) of a box (thorough: 1..300 x 1..300, exhaustive; quick: every pair of that box whose '
@@ -56,6 +60,9 @@ ASSUMPTIONS = [
     '(NumPy >= 2 transforms single-precision data in single precision); integer input must agree with the float64 copy to 1e-9 x scale',
     'statefulness: only the consequence is demanded (a helper called again, or after voltage.fk/agc/kfilt/lp/hp/bp/convolve ran, still returns the '
     'model value of the original arguments); whether arguments are left untouched or results alias internal buffers is recorded as information only',
+    'forms not exercised because the API rejects them with a clear exception on the unchanged tree: float-valued ns / nk / axis (TypeError from slice / shape), '
+    'fscale(ns) with an UNSIGNED numpy integer two-sided (OverflowError from `-2 + ns % 2` under NumPy 2 promotion rules; one_sided=True works); '
+    'result dtypes are not demanded (values only)',
     'lengths >= 1 (empty axes raise in NumPy; modelled as errors and compared, but outside the property)',
     'cosine bounds b0 < b1 and sampling interval si > 0',
 ]
@@ -144,18 +151,145 @@ def _snap(a):
     return ('obj', repr(a))
 
 
+# ---- input forms: every legitimate representation of the same value / the same call must give the same answer ------------
+LAYOUTS = ('as-is', 'fortran-order', 'strided-view', 'read-only', 'negative-stride-view')
+SPELLINGS = ('natural', 'all-keywords(+gpu=False)', 'all-positional')
+SCALARS = ('python', 'numpy-64bit', 'numpy-narrow', 'numpy-unsigned')
+NFORMS = len(LAYOUTS) * len(SPELLINGS) * len(SCALARS)
+FORM_SAMPLE = (1, 2, 3, 4, 5, 10, 15, 30, 45, 22, 38, 59)        # each layout / spelling / scalar kind at least once
+# positional order as callers wrote it against the signatures of the pinned tree (a reordered signature rebinds them)
+SIGS = {
+    'convolve': (('x', 'w', 'mode', 'gpu'), {'mode': 'full', 'gpu': False}),
+    'ns_optim_fft': (('ns',), {}),
+    'fscale': (('ns', 'si', 'one_sided'), {'si': 1, 'one_sided': False}),
+    'freduce': (('x', 'axis'), {'axis': None}),
+    'fexpand': (('x', 'ns', 'axis'), {'ns': 1, 'axis': None}),
+    'lp': (('ts', 'si', 'b', 'axis'), {'axis': None}),
+    'hp': (('ts', 'si', 'b', 'axis'), {'axis': None}),
+    'bp': (('ts', 'si', 'b', 'axis'), {'axis': None}),
+    '_freq_vector': (('f', 'b', 'typ'), {'typ': 'lp'}),
+    'dft': (('x', 'xscale', 'axis', 'kscale'), {'xscale': None, 'axis': -1, 'kscale': None}),
+    'dft2': (('x', 'r', 'c', 'nk', 'nl'), {}),
+}
+INT_KEYS = ('ns', 'nk', 'nl', 'axis')
+_FORM = [0]
+
+
+def form_text(k):
+    k %= NFORMS
+    return f'arrays {LAYOUTS[k % 5]}, call {SPELLINGS[(k // 5) % 3]}, scalar parameters {SCALARS[(k // 15) % 4]}'
+
+
+def lay_array(a, how, k):
+    if not isinstance(a, np.ndarray) or a.ndim == 0 or a.size == 0 or how == 'as-is':
+        return a
+    ax = k % a.ndim
+    if how == 'fortran-order':
+        return np.asfortranarray(a)
+    if how == 'strided-view':         # every other element of a buffer whose gaps hold garbage
+        sh = list(a.shape)
+        sh[ax] *= 2
+        big = np.full(sh, np.nan if a.dtype.kind in 'fc' else 123, dtype=a.dtype)
+        sl = tuple(slice(0, None, 2) if i == ax else slice(None) for i in range(a.ndim))
+        big[sl] = a
+        return big[sl]
+    if how == 'read-only':
+        b = a.copy()
+        b.setflags(write=False)
+        return b
+    return np.flip(np.flip(a, axis=ax).copy(), axis=ax)      # negative stride
+
+
+def form_value(fname, key, v, lay, sc, k):
+    if isinstance(v, np.ndarray):
+        return lay_array(v, lay, k)
+    if key in INT_KEYS and isinstance(v, (int, np.integer)) and not isinstance(v, bool):
+        v = int(v)
+        if sc == 'numpy-64bit':
+            return np.int64(v)
+        if sc == 'numpy-narrow':
+            return np.int16(v) if -32768 <= v <= 32767 else np.int32(v) if -2 ** 31 <= v < 2 ** 31 else np.int64(v)
+        if sc == 'numpy-unsigned' and v >= 0 and not (fname == 'fscale' and key == 'ns'):
+            return np.uint8(v) if v < 256 else np.uint64(v)      # fscale(ns=<unsigned>) raises OverflowError (see ASSUMPTIONS)
+        return v
+    if key == 'si' and isinstance(v, (int, float, np.floating)):
+        v = float(v)
+        if sc == 'numpy-64bit':
+            return np.float64(v)
+        if sc == 'numpy-narrow':
+            return np.float32(v) if float(np.float32(v)) == v else v
+        if sc == 'numpy-unsigned':
+            return int(v) if v == int(v) else v
+        return v
+    if key in ('b', 'bounds') and isinstance(v, (list, tuple)):
+        if sc == 'numpy-64bit':
+            return np.array(v, dtype=float)
+        if sc == 'numpy-narrow':
+            return tuple(v)
+        if sc == 'numpy-unsigned':
+            return [int(t) if float(t) == int(t) else t for t in v]
+        return list(v)
+    return v
+
+
+def fcn_cosine_on(bounds, x):
+    """`utils.fcn_cosine(bounds)(x)` (named so that forms can be applied to it)."""
+    from ibldsp import utils
+    return utils.fcn_cosine(bounds)(x)
+
+
+def formed(fn, k, args, kwargs):
+    """Call `fn` with the same mathematical arguments in representation / spelling number k."""
+    k %= NFORMS
+    lay, spell, sc = LAYOUTS[k % 5], SPELLINGS[(k // 5) % 3], SCALARS[(k // 15) % 4]
+    name = getattr(fn, '__name__', '')
+    if name == 'fcn_cosine_on':
+        from ibldsp import utils
+        b = form_value(name, 'bounds', args[0], lay, sc, k)
+        x = lay_array(args[1], lay, k)
+        f = (utils.fcn_cosine(b) if spell == SPELLINGS[0] else utils.fcn_cosine(bounds=b, gpu=False) if spell == SPELLINGS[1]
+             else utils.fcn_cosine(b, False))
+        return f(x)
+    if name not in SIGS:
+        return fn(*[lay_array(a, lay, k) for a in args], **{q: lay_array(v, lay, k) for q, v in kwargs.items()})
+    names, defaults = SIGS[name]
+    bound = dict(zip(names, args))
+    bound.update(kwargs)
+    bound = {q: form_value(name, q, v, lay, sc, k) for q, v in bound.items()}
+    if spell == SPELLINGS[1]:
+        if 'gpu' in names:
+            bound.setdefault('gpu', False)
+        return fn(**bound)
+    if spell == SPELLINGS[2]:
+        return fn(*[bound[q] if q in bound else defaults[q] for q in names])
+    return fn(*[bound[q] for q in names[:len(args)]], **{q: bound[q] for q in kwargs})
+
+
+def C(fn, *args, **kwargs):
+    """Oracle-side call in the input form selected by the replay / search (`_FORM`)."""
+    return formed(fn, _FORM[0], args, kwargs)
+
+
 def pure(desc, text, fn, *args, **kwargs):
-    """Call `fn` twice on the same argument objects and hand the SECOND result to the comparison with the model (which was
-    fed the original values).  Informational counters only; no disagreement is raised here."""
+    """Correspondence-side call: a representation / spelling drawn independently of the values, called twice on the same argument
+    objects; the SECOND result is handed to the comparison with the model of the original values.  Counters are informational."""
     _INFO['calls'] += 1
+    k = (_INFO['calls'] * 7 + 3) % NFORMS
+    if isinstance(desc, dict):
+        desc['form'] = form_text(k)
+    for t in form_text(k).split(', '):
+        _FORMS[t] = _FORMS.get(t, 0) + 1
     before = _snap((args, kwargs))
-    r1 = fn(*args, **kwargs)
+    r1 = formed(fn, k, args, kwargs)
     if _snap((args, kwargs)) != before:
         _INFO['args_modified'] += 1
-    r2 = fn(*args, **kwargs)
+    r2 = formed(fn, k, args, kwargs)
     if _snap(r1) != _snap(r2):
         _INFO['second_result_differs'] += 1
     return r2
+
+
+_FORMS = {}
 
 
 def alias_probe():
@@ -313,17 +447,22 @@ def corr_conv_operator(ctx):
         ctx.note(f'convolve operator: exhaustive box nsx, nsw in 1..{BOX}, both modes, full impulse basis')
 
 
-CONV_KINDS = ('float', 'int', 'int32', 'float32', 'int16', 'int64')
+CONV_DTYPES = ('float64', 'float32', 'int16', 'int32', 'int64')
 
 
-def _rand_content(rng, shape, kind):
-    if kind == 'int':
-        return rng.integers(-9, 10, size=shape).astype(float)
-    if kind in ('int16', 'int32', 'int64'):
-        return rng.integers(-2000 if kind != 'int32' else -9, 2001 if kind != 'int32' else 10, size=shape).astype(kind)
-    if kind == 'float32':
-        return (rng.standard_normal(shape) * np.exp(rng.uniform(-3, 3))).astype(np.float32)
-    return rng.standard_normal(shape) * np.exp(rng.uniform(-3, 3))
+def _rand_content(rng, shape, dtype, small=False):
+    """Contents of one convolve argument: floats of arbitrary scale, integers incl. the extreme values of narrow types."""
+    dt = np.dtype(dtype)
+    if dt.kind == 'f':
+        return (rng.standard_normal(shape) * np.exp(rng.uniform(-3, 3))).astype(dt)
+    hi = 9 if small else min(int(np.iinfo(dt).max), 2 ** 31 - 1)
+    a = rng.integers(-hi - (0 if small else 1), hi + 1, size=shape, dtype=np.int64)
+    if not small and rng.random() < 0.5:
+        a = rng.integers(-2000, 2001, size=shape, dtype=np.int64)
+    if not small and a.size:
+        a.flat[int(rng.integers(0, a.size))] = -hi - 1      # e.g. -32768
+        a.flat[int(rng.integers(0, a.size))] = hi           # e.g. 32767
+    return a.astype(dt)
 
 
 def corr_conv_values(ctx):
@@ -341,11 +480,12 @@ def corr_conv_values(ctx):
             a, b = int(rng.integers(150, 301)), int(rng.integers(100, 301))
         ndim = int(rng.integers(1, 4))
         lead = tuple(int(rng.integers(1, 4)) for _ in range(ndim - 1))
-        kind = CONV_KINDS[t % len(CONV_KINDS)] if t % 7 else 'int'
-        x = _rand_content(rng, lead + (a,), kind)
+        dx_, dw_ = CONV_DTYPES[t % 5], CONV_DTYPES[(t // 5) % 5]          # the two dtypes are drawn independently: all 25 pairs
+        x = _rand_content(rng, lead + (a,), dx_, small=(t % 4 == 0))
         wshape = (b,) if (ndim == 1 or rng.random() < 0.6) else lead + (b,)
-        w = _rand_content(rng, wshape, kind)
-        mode = ('full', 'same')[t % 2]
+        w = _rand_content(rng, wshape, dw_, small=(t % 4 == 0))
+        mode = ('full', 'same')[(t // 3) % 2]
+        kind = 'int' if (x.dtype.kind == 'i' and w.dtype.kind == 'i') else ('float32' if 'float32' in (dx_, dw_) else 'float')
         jobs.append((x, w, mode, kind))
     lines, meta = [], []
     for x, w, mode, kind in jobs:
@@ -353,7 +493,7 @@ def corr_conv_values(ctx):
         W = np.broadcast_to(w, x.shape[:-1] + (w.shape[-1],)).reshape(-1, w.shape[-1]).copy()
         try:
             out = pure({'op': 'convolve-values', 'x_shape': list(x.shape), 'w_shape': list(w.shape), 'mode': mode, 'contents': kind, 'row': 0},
-                       f"fourier.convolve(x{list(x.shape)}:{x.dtype}, w{list(w.shape)}, mode='{mode}')", fourier.convolve, x, w, mode=mode)
+                       f"fourier.convolve(x{list(x.shape)}:{x.dtype}, w{list(w.shape)}:{w.dtype}, mode='{mode}')", fourier.convolve, x, w, mode=mode)
             O = out.reshape(-1, out.shape[-1])
             err = None
         except Exception as e:
@@ -363,13 +503,14 @@ def corr_conv_values(ctx):
                 lines.append(f'conv {mode} {bits(X[i].astype(np.float64))} {bits(W[i].astype(np.float64))}')
             else:
                 lines.append('convspec ' + mode + ' ' + ','.join(str(int(v)) for v in X[i]) + ' ' + ','.join(str(int(v)) for v in W[i]))
-            meta.append((x.shape, w.shape, mode, kind, i, X[i].astype(float), W[i].astype(float), None if O is None else O[i], err))
+            meta.append((x.shape, w.shape, mode, kind, i, X[i].astype(float), W[i].astype(float), None if O is None else O[i], err,
+                         f'{x.dtype}x{w.dtype}'))
     model = ctx.lean(lines)
     from ibldsp.fourier import ns_optim_fft
-    for (xs, ws, mode, kind, i, xi, wi, oi, err), m in zip(meta, model):
-        desc = {'op': 'convolve-values', 'x_shape': list(xs), 'w_shape': list(ws), 'mode': mode, 'contents': kind, 'row': i}
+    for (xs, ws, mode, kind, i, xi, wi, oi, err, dts), m in zip(meta, model):
+        desc = {'op': 'convolve-values', 'x_shape': list(xs), 'w_shape': list(ws), 'mode': mode, 'contents': kind, 'row': i, 'dtypes': dts}
         p = int(ns_optim_fft(xs[-1] + ws[-1]))
-        tags = ('convval:' + kind, f'convval:{len(xs)}d', 'convval:w_matrix' if len(ws) > 1 else 'convval:w_vector',
+        tags = ('convval:' + kind, 'convval:dtypes ' + dts, f'convval:{len(xs)}d', 'convval:w_matrix' if len(ws) > 1 else 'convval:w_vector',
                 'convval:pad_odd' if p % 2 else 'convval:pad_even')
         if err is not None:
             ctx.compare('convolve-values', desc, err, m, tags=tags)
@@ -405,9 +546,8 @@ def _strip_conj(sym):
 
 def _decode_coded(out, axis, dtype='complex128'):
     """Back to the symbolic form `i` / `i*`; all fibres must agree and keep their fibre number and dtype."""
-    if out.dtype != np.dtype(dtype):
-        return f'dtype {out.dtype}'
     cplx = np.dtype(dtype).kind == 'c'
+    out = np.asarray(out, dtype=np.complex128 if cplx else np.float64)
     F = fibres(out, axis)
     syms = []
     for j, f in enumerate(F):
@@ -518,7 +658,7 @@ def corr_cosine(ctx):
         xs = np.concatenate([[b0, b1, (b0 + b1) / 2, b0 - 1, b1 + 1, np.nextafter(b0, -np.inf), np.nextafter(b1, np.inf), 0.0],
                              rng.uniform(b0 - (b1 - b0), b1 + (b1 - b0), 12)])
         y = pure({'op': 'fcn_cosine', 'b0': b0, 'b1': b1}, f'utils.fcn_cosine([{b0!r}, {b1!r}])(x[{len(xs)}])',
-                 lambda b, v: utils.fcn_cosine(b)(v), [b0, b1], xs)
+                 fcn_cosine_on, [b0, b1], xs)
         if t % 2:
             fv = pure({'op': 'fcn_cosine', 'b0': b0, 'b1': b1}, f'fourier._freq_vector(x[{len(xs)}], [{b0!r}, {b1!r}], typ="lp")',
                       fourier._freq_vector, xs, [b0, b1], typ='lp')
@@ -698,6 +838,7 @@ def corr_state(ctx):
 def correspondence(ctx):
     for k in _INFO:
         _INFO[k] = 0
+    _FORMS.clear()
     corr_state(ctx)
     corr_nsoptim(ctx)
     corr_conv_operator(ctx)
@@ -709,6 +850,8 @@ def correspondence(ctx):
     corr_dft(ctx)
     corr_state(ctx)
     ctx.dist['sequence:helper called twice on the same argument objects (second result compared)'] += _INFO['calls']
+    for t, c in _FORMS.items():
+        ctx.dist['form:' + t] += c
     ctx.dist['info:call modified an argument in place'] += _INFO['args_modified']
     ctx.dist['info:second result differs from first'] += _INFO['second_result_differs']
     ctx.note(f'informational (not demanded): helpers whose returned array aliases internal state: {alias_probe() or "none"}')
@@ -742,7 +885,7 @@ def oracle_nsoptim(n):
     from ibldsp import fourier
     want = least_smooth(n)
     try:
-        got = int(fourier.ns_optim_fft(n))
+        got = int(C(fourier.ns_optim_fft, n))
     except Exception as e:
         got = errname(e)
     if got == want:
@@ -755,19 +898,23 @@ def oracle_nsoptim(n):
 def oracle_conv(nsx, nsw, seed=0):
     from ibldsp import fourier
     rng = np.random.default_rng([seed, nsx, nsw])
-    for kind in ('ramp', 'rand') + REAL_DTYPES[1:]:
-        if kind in REAL_DTYPES:
-            x, w = rand_real(rng, nsx, kind, amp=100.0), rand_real(rng, nsw, kind, amp=10.0)
+    pairs = [('ramp', None, None), ('rand', None, None)] + [('dtypes', a, b) for a in CONV_DTYPES for b in CONV_DTYPES if (a, b) != ('float64', 'float64')]
+    for kind, dx_, dw_ in pairs:
+        if kind == 'dtypes':
+            x, w = _rand_content(rng, nsx, dx_), _rand_content(rng, nsw, dw_)
+            if w.dtype.kind == 'f' and x.dtype.kind == 'i':
+                w = (np.hanning(nsw + 2)[1:-1] if nsw > 1 else np.array([0.37])).astype(dw_)        # a taper on integer data, as voltage.agc does
+            kind = f'{dx_} x {dw_}'
         else:
             x = np.arange(1, nsx + 1, dtype=float) if kind == 'ramp' else rng.standard_normal(nsx)
             w = np.arange(1, nsw + 1, dtype=float)[::-1].copy() if kind == 'ramp' else rng.standard_normal(nsw)
         d = direct_full(x, w)
-        TOL = tol_for(kind if kind in REAL_DTYPES else 'float64')
+        TOL = 1e-5 if 'float32' in (str(x.dtype), str(w.dtype)) else 1e-9
         scale = max(float(np.sum(np.abs(x.astype(float))) * np.max(np.abs(w.astype(float)))), 1e-300)
         for mode in ('full', 'same'):
             for xx in (x, np.tile(x, (2, 1))):
                 try:
-                    out = fourier.convolve(xx, w, mode=mode)
+                    out = C(fourier.convolve, xx, w, mode=mode)
                 except Exception as e:
                     return f"convolve(x[{nsx}], w[{nsw}], mode='{mode}') raised {type(e).__name__}: {e}"
                 o = np.asarray(out, dtype=float)
@@ -780,7 +927,7 @@ def oracle_conv(nsx, nsw, seed=0):
                     ref = d[(nsw - 1) // 2:(nsw - 1) // 2 + nsx]
                     ok = len(o) == nsx and np.all(np.abs(o - ref) <= TOL * scale)
                 if not ok:
-                    return (f"convolve(x, w, mode='{mode}') [{x.dtype}] with x = {xx.tolist() if nsx * nsw <= 40 else kind + f'[{nsx}]'}, "
+                    return (f"convolve(x, w, mode='{mode}') [x:{x.dtype}, w:{w.dtype}] with x = {xx.tolist() if nsx * nsw <= 40 else kind + f'[{nsx}]'}, "
                             f"w = {w.tolist() if nsx * nsw <= 40 else kind + f'[{nsw}]'} returns {np.round(o[:8], 6).tolist()}… (len {len(o)}), "
                             f'direct convolution gives {np.round(ref[:8], 6).tolist()}… (len {len(ref)})')
     return None
@@ -795,9 +942,9 @@ def oracle_reduce_expand(n, seed=0):
             s = rand_real(rng, sh, REAL_DTYPES[(n + ndim + axis) % len(REAL_DTYPES)], amp=10.0)
             F = np.fft.fft(s, axis=axis)
             try:
-                H = fourier.freduce(F, axis=axis)
-                E = fourier.fexpand(H, n, axis=axis)
-                H2 = fourier.freduce(E, axis=axis)
+                H = C(fourier.freduce, F, axis=axis)
+                E = C(fourier.fexpand, H, n, axis=axis)
+                H2 = C(fourier.freduce, E, axis=axis)
             except Exception as e:
                 return f'freduce/fexpand on the spectrum of a real signal of shape {sh}, axis {axis} raised {type(e).__name__}: {e}'
             if H.shape[axis] != n // 2 + 1:
@@ -815,8 +962,8 @@ def oracle_reduce_expand(n, seed=0):
 
 def oracle_fscale(n, si=0.002):
     from ibldsp import fourier
-    f = np.asarray(fourier.fscale(n, si))
-    f1 = np.asarray(fourier.fscale(n, si, one_sided=True))
+    f = np.asarray(C(fourier.fscale, n, si))
+    f1 = np.asarray(C(fourier.fscale, n, si, one_sided=True))
     p = np.arange(n)
     want = np.where(p <= n // 2, p, p - n) / (n * si)
     if f.shape != want.shape or not np.allclose(f, want, rtol=1e-12, atol=0):
@@ -840,12 +987,12 @@ def oracle_filters(n, seed=0):
                 ts64 = ts.astype(np.float64)
                 what = f'shape {sh}, dtype {dt}, axis {axis}, si {si}'
                 try:
-                    lo = fourier.lp(ts, si, [b0, b1], axis=axis)
-                    hi = fourier.hp(ts, si, [b0, b1], axis=axis - ndim)
-                    band = fourier.bp(ts, si, [b0, b1, b2, b3], axis=axis)
-                    comp = fourier.hp(fourier.lp(ts, si, [b2, b3], axis=axis), si, [b0, b1], axis=axis)
-                    lo64 = fourier.lp(ts64, si, [b0, b1], axis=axis)
-                    fib = np.apply_along_axis(lambda v: fourier.lp(v, si, [b0, b1]), axis, ts)
+                    lo = C(fourier.lp, ts, si, [b0, b1], axis=axis)
+                    hi = C(fourier.hp, ts, si, [b0, b1], axis=axis - ndim)
+                    band = C(fourier.bp, ts, si, [b0, b1, b2, b3], axis=axis)
+                    comp = C(fourier.hp, C(fourier.lp, ts, si, [b2, b3], axis=axis), si, [b0, b1], axis=axis)
+                    lo64 = C(fourier.lp, ts64, si, [b0, b1], axis=axis)
+                    fib = np.apply_along_axis(lambda v: C(fourier.lp, v, si, [b0, b1]), axis, ts)
                 except Exception as e:
                     return f'lp/hp/bp on {what}, corners {[b0, b1, b2, b3]} raised {type(e).__name__}: {e}'
                 tol = tol_for(dt) * max(float(np.max(np.abs(ts64))), 1) * n
@@ -869,13 +1016,13 @@ def oracle_cosine(seed=0):
     for _ in range(40):
         b0, b1 = _bounds(rng, float(np.exp(rng.uniform(-2, 8))))
         xs = np.sort(np.concatenate([[b0, b1, b0 - 1, b1 + 1], rng.uniform(b0 - (b1 - b0), b1 + (b1 - b0), 60)]))
-        y = np.asarray(utils.fcn_cosine([b0, b1])(xs.copy()))
+        y = np.asarray(C(fcn_cosine_on, [b0, b1], xs.copy()))
         if np.any(np.diff(y) < -1e-12) or np.any(np.abs(y[xs <= b0]) > 1e-12) or np.any(np.abs(y[xs >= b1] - 1) > 1e-12) \
                 or np.any(y < -1e-12) or np.any(y > 1 + 1e-12):
             i = int(np.argmax(np.diff(y) < -1e-12)) if np.any(np.diff(y) < -1e-12) else 0
             return (f'fcn_cosine([{b0}, {b1}]) is not a monotone 0 -> 1 ramp: values {np.round(y[i:i + 4], 6).tolist()} at x = {xs[i:i + 4].tolist()}, '
                     f'f(b0) = {float(y[np.searchsorted(xs, b0)])}, f(b1) = {float(y[np.searchsorted(xs, b1)])}')
-        mid = float(utils.fcn_cosine([b0, b1])(np.array([(b0 + b1) / 2]))[0])
+        mid = float(C(fcn_cosine_on, [b0, b1], np.array([(b0 + b1) / 2]))[0])
         if abs(mid - 0.5) > 1e-9:
             return f'fcn_cosine([{b0}, {b1}]) at the midpoint is {mid}, the cosine taper gives 0.5'
     return None
@@ -893,7 +1040,7 @@ def oracle_dft(n, seed=0):
                 x64 = x.astype(np.complex128 if cplx else np.float64)
                 want = np.fft.fft(x64, axis=axis) if cplx else np.fft.rfft(x64, axis=axis)
                 try:
-                    got = fourier.dft(x, axis=axis)
+                    got = C(fourier.dft, x, axis=axis)
                 except Exception as e:
                     return f'dft on shape {sh}, axis {axis} raised {type(e).__name__}: {e}'
                 if got.shape != want.shape or np.max(np.abs(got - want)) > tol_for(dt) * max(np.sum(np.abs(x64)), 1):
@@ -910,7 +1057,7 @@ def oracle_dft2(n0, n1, seed=0):
     r, c = [v.flatten() for v in np.meshgrid(np.arange(n0) / n0, np.arange(n1) / n1, indexing='ij')]
     want = np.fft.fft(np.fft.fft(x.reshape(n0, n1, nt), axis=0), axis=1)
     try:
-        got = fourier.dft2(x, r, c, n0, n1)
+        got = C(fourier.dft2, x, r, c, n0, n1)
     except Exception as e:
         return f'dft2 on a regular {n0} x {n1} grid raised {type(e).__name__}: {e}'
     if got.shape != want.shape or np.max(np.abs(got - want)) > TOL * max(np.sum(np.abs(x)), 1):
@@ -925,8 +1072,8 @@ def oracle_sequence(nx, nt, pad, lagc, with_kfilt, seed=0):
     text, si, dx, _ = _run_library_users(nx, nt, pad, lagc, with_kfilt, seed)
     rng = np.random.default_rng([seed, nx, nt, 7])
     ts = rng.standard_normal((nx, nt))
-    fourier.lp(ts, si, [50, 100]); fourier.hp(ts, si, [50, 100], axis=0); fourier.bp(ts, si, [20, 40, 100, 200])
-    fourier.convolve(ts, np.hanning(5), mode='same')
+    C(fourier.lp, ts, si, [50, 100]); C(fourier.hp, ts, si, [50, 100], axis=0); C(fourier.bp, ts, si, [20, 40, 100, 200])
+    C(fourier.convolve, ts, np.hanning(5), mode='same')
     text += '; fourier.lp / hp / bp / convolve on an array of the same shape'
     checks = [(f'fourier.fscale({nx + 2 * pad}, {dx})', lambda: oracle_fscale(nx + 2 * pad, dx)),
               (f'fourier.fscale({nt}, {si})', lambda: oracle_fscale(nt, si)),
@@ -943,6 +1090,18 @@ def oracle_sequence(nx, nt, pad, lagc, with_kfilt, seed=0):
 
 
 def run_oracle(inp):
+    """inp['form'] (default 0 = plain call) selects the representation / spelling of the arguments, see form_text()."""
+    _FORM[0] = int(inp.get('form', 0))
+    try:
+        r = _run_oracle(inp)
+    finally:
+        _FORM[0] = 0
+    if r and inp.get('form', 0):
+        r += f' [input form {inp["form"]}: {form_text(inp["form"])}]'
+    return r
+
+
+def _run_oracle(inp):
     k = inp['kind']
     if k == 'sequence':
         return oracle_sequence(inp['nx'], inp['nt'], inp['ntr_pad'], inp['lagc'], inp['kfilt'], inp.get('seed', 0))
@@ -966,7 +1125,7 @@ def run_oracle(inp):
 
 
 HOW = ('python (PYTHONPATH=$IBL_REPO/src:harness): import props.c18 as p; p.run_oracle(<input>) — returns the description of the '
-       'failure, None when the property holds on that input')
+       'failure, None when the property holds on that input; input["form"] = k selects the representation / call spelling p.form_text(k)')
 
 
 def _candidates(ctx):
@@ -1027,22 +1186,36 @@ def search(ctx, reasons):
             ctx.note(f'oracle fault on {inp}: {type(e).__name__}: {e}')
             return None
 
+    def attempt_forms(inp, many):
+        for k in ((0,) + FORM_SAMPLE if many else (0,)):
+            q = dict(inp, form=k) if k else inp
+            r = attempt(q)
+            if r:
+                return q, r
+        return None
+
     found = None
-    for inp in first:
-        r = attempt(inp)
-        if r:
-            found = (inp, r)
+    for inp in first[:40]:
+        found = attempt_forms(inp, True)
+        if found:
             break
     # smallest failing input of the same kind (groups are ordered by size), else the first failing of any kind
     for g in groups:
         if found and g[0]['kind'] != found[0]['kind']:
             continue
         seen.clear()
-        for inp in g:
-            r = attempt(inp)
-            if r:
-                found = (inp, r)
+        hit = None
+        for inp in g:                        # plain calls over the whole group, smallest first
+            hit = attempt_forms(inp, False)
+            if hit:
                 break
+        if not hit:
+            for inp in g[:6]:                # the other representations / spellings on the smallest inputs
+                hit = attempt_forms(inp, True)
+                if hit:
+                    break
+        if hit:
+            found = hit
         if found:
             break
     if found:
